@@ -26,7 +26,7 @@ use serde::{Deserialize, Serialize};
 use serde_json::{Value, json};
 use std::collections::{BTreeMap, BTreeSet, HashMap, HashSet};
 
-pub const TXS: [&str; 7] = ["T1", "T2", "Ta", "Tb", "H", "D", "S"];
+pub const TXS: [&str; 8] = ["T1", "T2", "Ta", "Tb", "H", "D", "S", "S2"];
 const NEVER: u8 = 255;
 
 /// block order of a history: A leads with `first` blocks, B overtakes with `first + 1`, A overtakes
@@ -94,7 +94,9 @@ impl World {
         let h = simple_tx(c, &g[2..3], 1, 900_000, 5).as_advanced_builder().header_dep(a1.clone()).build();
         let d = simple_tx(c, &g[4..5], 1, 800_000, 6).as_advanced_builder().cell_dep(CellDep::new_builder().out_point(g[3].0.clone()).build()).build();
         let s = simple_tx(c, &g[3..4], 1, 700_000, 7);
-        vec![t1, t2, ta, tb, h, d, s]
+        // a second spender of the dep cell
+        let s2 = simple_tx(c, &g[3..4], 1, 750_000, 8);
+        vec![t1, t2, ta, tb, h, d, s, s2]
     }
 }
 
@@ -106,6 +108,10 @@ fn roles_valid(roles: &BTreeMap<usize, (u8, u8)>) -> bool {
     }
     // Ta and Tb spend the same cell
     if (r(2).0 == 2 && r(3).0 == 2) || (r(2).1 == 2 && r(3).1 == 2) {
+        return false;
+    }
+    // S and S2 spend the same cell
+    if (r(6).0 == 2 && r(7).0 == 2) || (r(6).1 == 2 && r(7).1 == 2) {
         return false;
     }
     // H names a1: it cannot be committed on B
@@ -406,7 +412,7 @@ impl Runner {
 }
 
 fn scenarios() -> Vec<(&'static str, Vec<usize>)> {
-    vec![("chain", vec![0, 1]), ("conflict", vec![2, 3]), ("header-dep", vec![4, 0]), ("cell-dep", vec![5, 6])]
+    vec![("chain", vec![0, 1]), ("conflict", vec![2, 3]), ("header-dep", vec![4, 0]), ("cell-dep", vec![5, 6]), ("dep-conflict", vec![5, 6, 7])]
 }
 
 fn cases(tier: Tier) -> Vec<Case> {
@@ -433,12 +439,24 @@ fn cases(tier: Tier) -> Vec<Case> {
                 if !roles_valid(&map) {
                     continue;
                 }
+                // dep-conflict: the dep user and the first spender live in the pool only; the second
+                // spender (never submitted) takes every role
+                if name == "dep-conflict" && !(map[&5] == (0, 0) && map[&6] == (0, 0)) {
+                    continue;
+                }
                 // the header-dep scenario varies T1 only lightly (it is there as an unrelated bystander)
                 if name == "header-dep" && !matches!(map[&0], (0, 0) | (2, 0) | (0, 2)) {
                     continue;
                 }
                 for pos in &pos_sets {
+                    if name == "dep-conflict" && pos.iter().any(|(m, p)| *m == 7 && *p != NEVER) {
+                        continue;
+                    }
                     for mine in [true, false] {
+                        // quick tier: the assembler-off node is run on the long first lead only
+                        if !tier.is_thorough() && !mine && first != *[3usize, 4].iter().find(|f| **f == first).unwrap_or(&0) {
+                            continue;
+                        }
                         out.push(Case { scenario: name.to_string(), roles: roles.clone(), pos: pos.clone(), first, mine });
                     }
                 }
@@ -454,7 +472,7 @@ pub fn meta(tier: Tier) -> Meta {
     Meta {
         id: "C12",
         level: "model_checking",
-        rule: "history = (scenario, role assignment, submission positions, block assembler on/off) run on a real node with the production tx-pool service; blocks a1 a2 a3 | b1 b2 b3 b4 (reorg, 3 detached / 4 attached) | a4 a5 (reorg back, 4 detached / 5 attached, block-1 proposals leave the window) forged freshly per history; scenarios: parent/child chain, two conflicting spends, a header-dep on a1 (+ bystander), a cell-dep user and the dep cell's spender; roles per tx and branch: nothing / proposed in block 1 / proposed and committed in block 3; after EVERY submission and block (once the pool reports the new tip) the pool's internal dump is judged against a plain replay of the main chain: no pooled tx committed on it, every input and cell dep live on it or created by a pooled tx, every header dep on it, on a reorg every tx committed only on the abandoned branch that is valid on the new chain (inputs available and not spent by another pooled tx, deps, header deps) is pooled again, and with the assembler on each entry's stage equals proposed/gap/pending as computed from the new chain's proposal window. non-trivial = a re-added detached tx or an entry outside the pending stage.",
+        rule: "history = (scenario, role assignment, submission positions, block assembler on/off) run on a real node with the production tx-pool service; blocks a1 a2 a3 | b1 b2 b3 b4 (reorg, 3 detached / 4 attached) | a4 a5 (reorg back, 4 detached / 5 attached, block-1 proposals leave the window) forged freshly per history; scenarios: parent/child chain, two conflicting spends, a header-dep on a1 (+ bystander), a cell-dep user and the dep cell's spender, the same with a second (block-only) spender of the dep cell; roles per tx and branch: nothing / proposed in block 1 / proposed and committed in block 3; after EVERY submission and block (once the pool reports the new tip) the pool's internal dump is judged against a plain replay of the main chain: no pooled tx committed on it, every input and cell dep live on it or created by a pooled tx, every header dep on it, on a reorg every tx committed only on the abandoned branch that is valid on the new chain (inputs available and not spent by another pooled tx, deps, header deps) is pooled again, and with the assembler on each entry's stage equals proposed/gap/pending as computed from the new chain's proposal window. non-trivial = a re-added detached tx or an entry outside the pending stage.",
         assumptions: &["expiry and size-limit eviction are outside this alphabet (C11 covers their bookkeeping)", "interleavings of the reorg notification with a concurrent submission are not enumerated (no gate scheduler): each event runs to quiescence", "RBF is off in this check (a conflicting submission is refused)"],
         bounds: json!({"first_lead_of_A": "1 and 3 blocks (2 and 4 in the header-dep scenario); history = first + (first+1) + 2 blocks", "positions": if tier.is_thorough() { json!(["never", "start", "after a1", "after a2", "end of first A phase", "just before B overtakes", "after B overtook", "end"]) } else { json!(["never", "start", "after a1", "after B overtook"]) }, "roles_per_tx": 9}),
     }
